@@ -29,7 +29,7 @@ IGN='(/\.cargo/|/rustc/|/verif/|/library/)'
   echo "# repo HEAD $(git -C /repo rev-parse --short HEAD), verif HEAD $(git -C "$V" rev-parse --short HEAD), $(date -u +%F)"
   echo
   "$BIN_DIR/llvm-cov" report "$T/release/flipdot-sim" -instr-profile="$S/all.profdata" -ignore-filename-regex="$IGN" 2>/dev/null \
-    | awk 'NR<=2 || /^\/repo|^TOTAL|^---/' | sed -E 's/ +/ /g'
+    | sed -E 's/ +/ /g; /^-+$/d'
   echo
   echo "# Lines never executed (file:line: text). Lines inside #[cfg(test)] modules and doc examples are not compiled in."
   "$BIN_DIR/llvm-cov" show "$T/release/flipdot-sim" -instr-profile="$S/all.profdata" -ignore-filename-regex="$IGN" \
